@@ -269,7 +269,7 @@ CLAIMED = {
     "C18": dict(
         technique="TLA+ Iterators module with one scope stack per validator; TLC enumerates all next()-level interleavings of "
                   "2-3 iterators over measured scripts (MC_Interleave, invariant Independent, negative control SharedStack); "
-                  "every schedule replayed on real iterators; threaded runs compared with solo runs",
+                  "every schedule replayed on real iterators; event-level bounded-preemption schedules (MC_Sched) replayed on real threads gated at resolver events; unscheduled thread stress",
         text="Each validator owns a resolver and therefore a scope stack; the model advances iterators of different "
              "validators in every order and TLC checks that what each produces is a prefix of its solo run and that all "
              "stacks are restored, while the negative control (one stack shared behind their backs) is violated. The "
@@ -279,9 +279,12 @@ CLAIMED = {
              "functions on default-constructed FormatCheckers, the very same schema object given to two default-"
              "constructed validators, recursive schemas). Every TLC schedule (quick: all schedules of the small groups, "
              "a seeded sample of 400 for the large ones) is replayed on real generator objects and compared with the solo "
-             "error sequences; the same members also run in threads with a 1-microsecond switch interval.",
-        note="Thread preemption below next() granularity is only exercised (stress), not enumerated: no shared mutable state "
-             "exists below that granularity in the model.",
+             "error sequences. At thread level TLC enumerates the schedules of resolver events of two concurrent validations "
+             "with a bounded number of preemptions; each is replayed on real threads whose resolvers block before every "
+             "event until a turn-passing scheduler grants the slot; the same members also run unscheduled with a "
+             "1-microsecond switch interval.",
+        note="Thread preemption is enumerated at resolver-event granularity with <= 1 (quick) / 2 (thorough) preemptions; "
+             "byte-code-level preemption is only exercised by the stress runs.",
         design="5 C18"),
     "C19": dict(
         technique="TLA+ Cli run-loop machine (LoadSchema / CheckSchema / Instance(k) / Return) model-checked by TLC (MC_C19: "
